@@ -38,6 +38,7 @@ type c06Deliver struct {
 }
 type c06Withdraw struct{}
 type c06Send struct{}
+type c06Restart struct{}
 type c06Execs struct{ e1, e2 bool }
 
 func (c06Sys) Root() *c06State {
@@ -63,6 +64,7 @@ func (c06Sys) Letters(s *c06State) []engine.Letter {
 	ls = append(ls, engine.Letter{Name: "BankSend(alice->bob,1)", Data: c06Send{}})
 	ls = append(ls, engine.Letter{Name: "SetExecutors(e2)", Data: c06Execs{false, true}})
 	ls = append(ls, engine.Letter{Name: "SetExecutors(e1,e2)", Data: c06Execs{true, true}})
+	ls = append(ls, engine.Letter{Name: "RestartViaGenesis", Data: c06Restart{}})
 	return ls
 }
 
@@ -99,6 +101,11 @@ func (c06Sys) Step(s *c06State, l engine.Letter) (*c06State, string, *engine.Vio
 		c.bal = m
 	}
 	switch d := l.Data.(type) {
+	case c06Restart:
+		if err := s.w.RestartViaGenesis(ctx); err != nil {
+			return c, "error", viol("sequences-survive-a-restart", "export / validate / import of the module genesis failed: %v", err)
+		}
+		return c, "ok", nil
 	case c06Execs:
 		var execs []string
 		if d.e1 {
